@@ -3,7 +3,7 @@ from contracts import c18_medium as C
 from props._generic import run_property, replay_with_driver
 
 LEVEL = "other"
-KEYS = ["medium.is_active", "medium.get_active_bound", "medium.set_active_bound"]
+KEYS = ["medium.is_active", "medium.get_active_bound", "medium.set_active_bound", "add_linear_obj"]
 
 
 def run(rep):
@@ -14,11 +14,16 @@ def run(rep):
         "ValueError exactly when the value would cross the opposite bound - stated, not hidden). Four glue lemmas over those "
         "contracts (linear real arithmetic on extended reals, per exchange): a listed exchange reads back as given iff its value is "
         "positive, its export bound is untouched; an unlisted exchange ends with import closed, export bound untouched and bounds only "
-        "tightened. The loops of the accessors over model.exchanges, minimal_medium's formulation and its optimality are NOT proved: "
+        "tightened. minimal_medium.add_linear_obj (the LP formulation's objective) is proved, with a loop invariant over the exchange "
+        "list, to put coefficient 1 on the IMPORT variable of every exchange (reverse variable of `met -->`, forward variable of "
+        "`--> met`), to leave every other objective coefficient alone and to set the direction to min - i.e. the objective is the "
+        "total import flux, as documented. The loops of the accessors over model.exchanges, add_mip_obj, minimal_medium's driver "
+        "loop and the optimality of its answers are NOT proved: "
         "bounded driver (exchanges written both ways, sub-dictionaries, sufficiency and minimality against the exact LP / subset "
         "enumeration)."),
         trusted=["Reaction.reactants/products non-empty iff the reaction has negative/positive coefficients (assumed contracts)",
-                 "find_boundary_types / model.exchanges (pandas heuristics)"])
+                 "find_boundary_types / model.exchanges (heuristics; assumed to return single-metabolite reactions of the model)",
+                 "Objective.set_linear_coefficients (optlang, assumed)"])
 
 
 def replay(payload):
